@@ -378,9 +378,11 @@ def step (rs : Regs) : Op → Option (Regs × Out)
       | none => (rs, .errRange)
   | .addAssign d s =>
       if d = s then none  -- not generated (aliasing `x += x` is not modelled)
+      else if !((getR rs d).small && (getR rs s).small) then some (rs, .skip)
       else ((getR rs d).addAssign? (getR rs s)).map fun v => (setR rs d v, .ok)
   | .baseAdd d s =>
       if d = s then none
+      else if !((getR rs d).small && (getR rs s).small) then some (rs, .skip)
       else ((getR rs d).baseAddAssign? Vec.baseArithGuard (getR rs s)).map fun
         | some v => (setR rs d v, .ok)
         | none => (rs, .errRange)
